@@ -352,17 +352,16 @@ theorem observed_status_monotone_in_time {ext : Ext} {fuel : Nat} {w : World} {b
     (fun _ _ => ⟨rfl, Or.inl rfl⟩) h2 hq1 hq2
 
 /-- **The observed status only moves forward — ONE statement over operations and time** (cw3-flex
-instance of `C05.observed_status_monotone`).  Take any world `w0` reached by a history whose blocks
-never go back (last transaction at `b0`), query a proposal there at any block `b1 ≥ b0`; let any further
-history follow (`ReachableFrom`: transactions on the multisig, the group and the token by anybody, with
-group updates, hooks, deposits, re-entrant and failing dispatches, at blocks `≥ b1` that never go back,
-last transaction at `b`), and query the same proposal again at any block `b2 ≥ b`.  Whenever both
-queries answer, the later answer is reachable from the earlier one along the forward edges only: equal,
-Open→Passed, Open→Rejected, Open→Executed (through Passed), Passed→Executed.  Never backwards, never
-Passed→Rejected, never out of Rejected or Executed.  No hypothesis about the group is needed (it holds
-also inside the known same-block finding of C06). -/
-theorem observed_status_monotone {ext : Ext} {fuel : Nat} {w0 w : World} {b0 b1 b b2 : Block}
-    (hr : ReachableAt ext fuel w0 b0) (h01 : C04.later b0 b1) (hf : ReachableFrom ext fuel w0 b1 w b)
+instance of `C05.observed_status_monotone`).  Take ANY reachable world `w0` and query a proposal there at
+any block `b1`; let any further history follow (`ReachableFrom`: transactions on the multisig, the group and
+the token by anybody, with group updates, hooks, deposits, re-entrant and failing dispatches, at blocks
+`≥ b1` that never go back, last transaction at `b`), and query the same proposal again at any block
+`b2 ≥ b`.  Whenever both queries answer, the later answer is reachable from the earlier one along the
+forward edges only: equal, Open→Passed, Open→Rejected, Open→Executed (through Passed), Passed→Executed.
+Never backwards, never Passed→Rejected, never out of Rejected or Executed.  No hypothesis about the group
+is needed (it holds also inside the known same-block finding of C06). -/
+theorem observed_status_monotone {ext : Ext} {fuel : Nat} {w0 w : World} {b1 b b2 : Block}
+    (hr : Reachable ext fuel w0) (hf : ReachableFrom ext fuel w0 b1 w b)
     (h2 : C04.later b b2) {id : Nat} {v1 v2 : ProposalView}
     (hq1 : Cw3Flex.queryProposal w0.flex b1 id = .ok v1) (hq2 : Cw3Flex.queryProposal w.flex b2 id = .ok v2) :
     v1.status = v2.status ∨
@@ -370,8 +369,8 @@ theorem observed_status_monotone {ext : Ext} {fuel : Nat} {w0 w : World} {b0 b1 
       (v1.status = .passed ∧ v2.status = .executed) := by
   obtain ⟨p0, hp0, hs1⟩ := queryProposal_ok hq1
   obtain ⟨p, hp, hs2⟩ := queryProposal_ok hq2
-  obtain ⟨hi0, ha0⟩ := reachableAt_openOk hr
-  have hopen : OpenOk b1 p0 := openOk_mono h01 (ha0 id p0 hp0)
+  have hi0 := reachable_inv hr
+  have hopen : OpenOk b1 p0 := reachable_openOk hr id p0 hp0 b1
   have hinv := reachableFrom_inv
     (fun b s => C04.later b1 b ∧ Inv s ∧ Later w0.flex.core s.core ∧
       (p0.status = .open → p0.expires.isExpired b1 = true → FrozenAt p0 v1.status id s.core))
@@ -417,6 +416,10 @@ example : ReachableAt Cex.noExt 10 exW0 ⟨10, 0⟩ :=
   ReachableAt.step ⟨⟨10, 0⟩, .flex "a" [⟨5, "ucosm"⟩] (.propose "t" "d" [] none)⟩
     (ReachableAt.init (m := Cex.inst) Cex.group0 Cex.token0 [(("a", "ucosm"), 20)] "ms" "grp" "tok" 5 ⟨10, 0⟩ rfl)
     ⟨Nat.le_refl _, Nat.le_refl _⟩
+open CwPlus.Props.C15 in
+example : Reachable Cex.noExt 10 exW0 :=
+  ⟨Cex.inst, Cex.flex0, Cex.group0, Cex.token0, _, "ms", "grp", "tok", 5,
+    [⟨⟨10, 0⟩, .flex "a" [⟨5, "ucosm"⟩] (.propose "t" "d" [] none)⟩], rfl, rfl⟩
 open CwPlus.Props.C15 in
 example : ReachableFrom Cex.noExt 10 exW0 ⟨11, 0⟩ (run Cex.noExt 10 exW0 exMore) ⟨13, 0⟩ :=
   ReachableFrom.step (w := step Cex.noExt 10 exW0 ⟨⟨12, 0⟩, .flex "b" [] (.vote 1 .yes)⟩) ⟨⟨13, 0⟩, .flex "x" [] (.execute 1)⟩
